@@ -156,7 +156,7 @@ def r3(ctx, prog):
     ctx.saw(c)
     named = sorted({x.a for x in mask.walk() if x.kind == "named"})
     ors_only = all(x.kind in ("named", "ref") or (x.kind == "call" and re.search(r"BitOr for .*Effects>::bitor$|Effects>::union$", x.a)) for x in mask.walk())
-    ctx.ob("R3", "mask-contains-every-Post-flag", set(want) <= set(named) and ors_only, c.loc(bb), "mask = %s; Post* flags: %s" % (M.render(mask)[:300], want), c)
+    ctx.ob("R3", "mask-contains-every-Post-flag", set(want) == set(named) and ors_only, c.loc(bb), "mask = %s; it must be exactly the Post* flags: %s" % (M.render(mask)[:300], want), c)
     ctx.ob("R3", "scan-reads-the-node's-program", re.search(r"GetProgram::get_program\(.*node\.program_address\)\.0$", M.render(M.peel(bytes_t))) is not None, c.loc(bb),
            "scanned bytes: %s" % M.render(bytes_t)[:200], c)
     # the closure is what find_deferred receives
